@@ -31,7 +31,16 @@ def _tt(t):
 def gen(rng, i, tier):
     syn = G.random_syntax(rng, allow_ho=False)
     req = G.random_request(rng, syn)
-    kind = rng.choice(["cfg", "cfg", "cfg", "ucfg", "dfta", "dfta", "size"])
+    kind = rng.choice(["cfg", "cfg", "cfg", "ucfg", "dfta", "dfta", "size", "size", "atmost"])
+    if kind == "atmost":
+        # at_most_k bounds the occurrences of ONE primitive: the language is finite only when that
+        # primitive is the only one with arguments
+        funs = [p for p in syn["prims"] if not isinstance(p[1], str) and p[1][0] == "->"]
+        keep = rng.choice(funs) if funs else None
+        syn["prims"] = [p for p in syn["prims"] if p is keep or p not in funs]
+        names = {n for n, _ in syn["prims"]}
+        syn["forbidden"] = {k: [c for c in v if c in names] for k, v in syn["forbidden"].items() if k[0] in names}
+        req = G.random_request(rng, syn)
     case = {
         "kind": kind,
         "prims": syn["prims"], "forbidden": [[k[0], k[1], v] for k, v in syn["forbidden"].items()],
@@ -40,6 +49,8 @@ def gen(rng, i, tier):
         "min_var": rng.choice([0, 0, 1, 1]),
         "n_gram": rng.choice([2, 2, 2, 1, 3]),
         "max_size": rng.choice([3, 4, 5, 6]),
+        "atmost": [next((n for n, t in syn["prims"] if not isinstance(t, str) and t[0] == "->"), syn["prims"][0][0]),
+                   rng.choice([0, 1, 2, 2, 3])],
         "constraints": random_constraints(rng, syn["prims"]),
         "weights": rng.choice(["uniform", "dyadic", "dyadic", "random", "hand", "samples"]),
         "wseed": rng.randrange(1 << 30),
@@ -47,7 +58,7 @@ def gen(rng, i, tier):
         "bad_samples": rng.random() < 0.2,
         "nseed": rng.randrange(1 << 30),
     }
-    if kind in ("ucfg", "dfta", "size") and case["weights"] == "samples":
+    if kind in ("ucfg", "dfta", "size", "atmost") and case["weights"] == "samples":
         case["weights"] = "dyadic"
     # keep the language small enough to enumerate (upper bound: forbidden patterns ignored)
     from harness.oracle import TypedTerms
@@ -430,6 +441,8 @@ def check(case, M):
     try:
         if kind == "size":
             g = TTCFG.size_constraint(dsl, tr, case["max_size"], case["n_gram"])
+        elif kind == "atmost":
+            g = TTCFG.at_most_k(dsl, tr, case["atmost"][0], int(case["atmost"][1]), case["n_gram"])
         else:
             g = CFG.depth_constraint(dsl, tr, case["max_depth"], case["min_var"], case["n_gram"])
     except KeyError:
@@ -438,7 +451,7 @@ def check(case, M):
     if not g.rules or g.start not in g.rules:
         tags.append("empty-language")
         return res
-    if kind in ("cfg", "size"):
+    if kind in ("cfg", "size", "atmost"):
         return check_det(case, M, rng, g, res)
     return check_u(case, M, rng, g, res)
 
@@ -471,6 +484,27 @@ def check_det(case, M, rng, g, res):
         tags.append("cyclic")
         return res
     terms = [t for t, _ in lang0]
+    if not plain:
+        # ---- ProbDetGrammar.programs() over a TTCFG = TTCFG.programs(): implementation vs the model
+        # PS.T.programsR, vs the Lean spec (length of the enumeration langOf) and vs the oracle's own
+        # enumeration — also on tables that clean() left with dead rules (theorem C04_programs_ttcfg
+        # needs no cleanness)
+        nprog_t = g.programs()
+        hyp_t, mn_t, ms_t = M.ask([Sym("c04.programsT"), gw, 64])
+        hyp_ok = all(x == "1" for x in hyp_t)
+        mn_t = None if mn_t == "none" else int(mn_t)
+        ms_t = None if ms_t == "none" else int(ms_t)
+        tags.append("ttcfg.hyp-holds" if hyp_ok else "ttcfg.hyp-fails")
+        if hyp_ok and mn_t is not None:
+            if ms_t != mn_t:
+                raise RuntimeError(f"Lean programsR = {mn_t} but |langOf| = {ms_t} (contradicts theorem C04_programs_ttcfg)")
+            if ms_t != len(terms):
+                raise RuntimeError(f"Lean langOf has {ms_t} programs, the harness' oracle {len(terms)}")
+        if nprog_t != len(terms):
+            fail("oracle", "programs() is not the number of programs of the language", f"{nprog_t} vs {len(terms)} ({kind})")
+        if mn_t != nprog_t:
+            fail("corr", "TTCFG.programs() differs from the model", f"{nprog_t} vs {mn_t}")
+        tags.append("ttcfg.programs-compared")
     if orc0.dead_rules:
         if plain:
             fail("oracle", "a rule of a clean CFG derives no program", str(orc0.dead_rules[:2]))
@@ -775,6 +809,17 @@ def check_u(case, M, rng, cfg, res):
     distinct = {freeze(t) for t in terms}
     if len(distinct) != len(terms):
         tags.append("ambiguous(C06)")      # unambiguity is property C06
+        # programs() still has a meaning: the number of (start symbol, derivation) pairs
+        # (theorem C04_programs_u_derivations); compared with the model and the oracle's count
+        try:
+            np_a = u.programs()
+            o_a = M.ask([Sym("c04.uops"), ucfg_wire(u, un, starts, u._some_start), [Sym("utags"), [], []], 64])
+            if str(o_a[2]) != str(np_a):
+                fail("corr", "UCFG.programs() differs from the model", f"{np_a} vs {o_a[2]} (ambiguous grammar)")
+            if o_a[4] != "none" and int(o_a[4][1]) != len(terms):
+                raise RuntimeError(f"Lean langU and Python oracle disagree on the number of derivations: {o_a[4]} vs {len(terms)}")
+        except RecursionError:
+            pass
         return res
     if any(len(alts) > 1 for S in u.rules for alts in u.rules[S].values()):
         tags.append("several-alternatives")
@@ -833,6 +878,10 @@ def check_u(case, M, rng, cfg, res):
         fail("corr", "UCFG.programs() differs from the model", f"{nprog} vs {m_prog}")
     if m_counts != "none" and not (int(m_counts[0]) == int(m_counts[1]) == len(terms)):
         raise RuntimeError(f"Lean countU/langU and Python oracle disagree: {m_counts} vs {len(terms)}")
+    if m_counts != "none" and m_prog != "none" and int(m_prog) != int(m_counts[1]):
+        raise RuntimeError(f"Lean model programs = {m_prog} but the enumeration from the start symbols has {m_counts[1]} entries "
+                           "(contradicts theorems C04_programs_u_derivations / C04_programs_ucfg)")
+    tags.append("ucfg.programs-compared:" + kind)
 
     def ufloats(w):
         return ({json.dumps(nt): {json.dumps(r[0]): {json.dumps(a[0]): _div(frac_of(a[1])) for a in r[1]} for r in row} for nt, row in w[1]},
@@ -879,6 +928,15 @@ def check_u(case, M, rng, cfg, res):
     tw = utags_wire(pu.tags, pu.start_tags, un, conv)
     normalised, rows = M.ask([Sym("c04.u"), uw, tw, [term_wire(t) for t in probe_terms]])
     nzero = 0
+    # the statement's distribution with several start symbols (theorem C04_sum_one_u): when every
+    # program of the language is probed, the Lean spec probU sums to 1 over it
+    if len(probes) == len(lang) and normalised == "1":
+        spec_total = sum(frac_of(row[1]) for row in rows[:len(lang)])
+        if spec_total != 1:
+            raise RuntimeError(f"Lean spec probU sums to {spec_total} over the language with {nstarts} start symbols (contradicts theorem C04_sum_one_u)")
+        if any(int(row[4]) != 1 for row in rows[:len(lang)]):
+            raise RuntimeError("a program of the language does not have exactly one derivation in the Lean spec")
+        tags.append("spec-sum-one-checked" + (":several-starts" if multi else ""))
     for t, row in zip(probe_terms, rows):
         want, s0 = members.get(freeze(t), (Fraction(0), None))
         p_repo = to_repo(t, objs)
